@@ -135,6 +135,12 @@ def run_tree(rec, tier, seed, ti, spec, t, log, lf):
                     if bad is not None:
                         rec.violation("writer-mode-inside-call-differs", "tree %d %s: at write #%d (%s) the writer's sanitisation mode is %r, the XML prescribes %r (entry mode %r)" % (
                             ti, name, bad, got_modes[bad][0], got_modes[bad][1], want_modes[bad][1], mode), dict(case, xml=t.files, op_index=bad))
+                elif want_modes is not None and bytes(mw.data) != data:
+                    # the writes cannot be lined up with the prescribed ones (other calls, other writers in
+                    # between): then the bytes produced under this entry mode decide
+                    rec.count("writer-byte-fallback-compared")
+                    rec.violation("writer-mode-inside-call-differs", "tree %d %s: entered with sanitisation %r the serializer wrote %s, the XML prescribes %s (the write calls do not line up with the prescribed ones)" % (
+                        ti, name, mode, data.hex()[:160], bytes(mw.data).hex()[:160]), dict(case, xml=t.files))
             n_lines = lf.count
             rec.case((ti, name, repr(obj), mode, "ser-clean"), nontrivial=log.max_depth > 1)
             flush_leaks(rec, log, t, ti, name, "clean serialize", case)
